@@ -71,6 +71,10 @@ chk("C02", "stateless choice-DFS over documents + string alphabet on signed posi
     "Generated documents (signed-field shorthands open, <=1/2 deviations), all key kinds with/without interpolation on the <=1-deviation slice, the C09 string alphabet at every signed string position: Parse -> [Interpolate] -> SignSteps -> JSON and YAML -> Parse / CommandStep.UnmarshalJSON -> Verify of every command step with the signed pipeline env and with the re-parsed one, + unrelated variables; sign+marshal under explored map iteration orders.",
     "YAML-leg string exclusions as C09; cryptography black box.", "DESIGN.md §3 C02")
 
+chk("C19", "deep-snapshot state invariant over explored states + cooperative-scheduler exploration of all interleavings up to a preemption bound at instrumented points; free-running race-detector pass as supplement",
+    "Observers never change the observed object's memory and no operation changes any package-level variable (deep snapshots, over BFS map states incl. tombstones, generated pipelines, signed steps, key sets); 2-3 harness threads (lifecycles on distinct objects; readers of one shared map / pipeline) are interleaved by a cooperative scheduler at operation boundaries and at every instrumented global access / heap write in the library, all schedules with <=1-3 preemptions, each thread's results equal its solo run; a -race build of the shared-object bodies runs free on 16 goroutines as non-deciding supplement.",
+    "Scheduler sees instrumented points only; dependency-global state outside the snapshot; race pass is sampling.", "DESIGN.md §3 C19")
+
 ALL = [f"C{i:02d}" for i in range(1,20)]
 NA_REASON = {}
 man = dict(version=1, setup_cmd="./setup.sh",
